@@ -44,7 +44,10 @@ MODS = ["cspuz_core", "enigma_csp", "pycsugar", "z3"]
 TRUE_SPELL = ["true", "True", "TRUE", "1", "tRuE"]
 FALSE_SPELL = ["false", "False", "FALSE", "0"]
 GARBAGE = ["", "2", "tru", "maybe", " true", "none", "-1", "t"]
-GRAPH_FNS = ["avc", "avc_acyclic", "division_connected", "single_cycle", "single_path", "crossable", "cycle_crossable", "with_borders", "avc_grid", "with_borders_grid"]
+GRAPH_FNS = [
+    "avc", "avc_acyclic", "division_connected", "single_cycle", "single_path", "crossable", "cycle_crossable", "with_borders",
+    "avc_grid", "avc_grid_acyclic", "with_borders_grid", "single_cycle_grid", "single_path_grid", "division_connected_grid",
+]
 RECIPIENT = {"z3": "z3", "sugar": "subprocess", "sugar_extended": "subprocess", "csugar": "pycsugar", "enigma_csp": "enigma_csp", "cspuz_core": "cspuz_core"}
 MOD_OF = {"z3": "z3", "csugar": "pycsugar", "enigma_csp": "enigma_csp", "cspuz_core": "cspuz_core"}
 
@@ -56,7 +59,7 @@ MOD_OF = {"z3": "z3", "csugar": "pycsugar", "enigma_csp": "enigma_csp", "cspuz_c
 
 def _gen_env_val(rng, key):
     if key == "CSPUZ_DEFAULT_BACKEND":
-        return rng.choice(NAMES + NAMES + ["auto", "auto", "auto", "foo", "Z3", "", "sugar-extended"])
+        return rng.choice(NAMES + NAMES + ["auto", "auto", "auto", "foo", "Z3", "", "sugar-extended", " z3", "z3\n", "AUTO"])
     if key == "CSPUZ_BACKEND_PATH":
         return rng.choice(["/opt/x/sugar", "sugar_ext.sh", "", "/usr/local/bin/csugar"])
     r = rng.random()
@@ -118,6 +121,7 @@ def generate(rng, tier, index):
             ops.append({"op": "restart"})
         elif k == "probe":
             ops.append({"op": "probe", "infer": rng.random() < 0.7})
+            ops.append({"op": "new_solver"})
         elif k == "assign":
             f = rng.choice(["default_backend", "default_backend", "backend_path", "use_graph_primitive", "use_graph_division_primitive"])
             if f == "default_backend":
@@ -128,12 +132,12 @@ def generate(rng, tier, index):
                 v = rng.random() < 0.5
             ops.append({"op": "assign", "field": f, "val": v})
         elif k == "call":
-            b = rng.choice([None, None, None] + NAMES + ["foo", "", "<class>", "auto"])
-            ops.append({"op": "call", "kind": rng.choice(["find_answer", "solve"]), "backend": b})
+            b = rng.choice([None, None, None] + NAMES + ["foo", "", "<class>", "auto", " z3", "z3 ", "Z3", "default", "Sugar", "cspuz-core"])
+            ops.append({"op": "call", "kind": rng.choice(["find_answer", "solve"]), "backend": b, "early_solver": rng.random() < 0.4})
         else:
             fn = rng.choice(GRAPH_FNS)
             flag = rng.choice([None, None, True, False])
-            if fn == "division_connected":
+            if fn in ("division_connected", "division_connected_grid"):
                 flag = None  # the public function has no per-call override
             ops.append({"op": "graph", "fn": fn, "flag": flag, "same_solver": rng.random() < 0.3})
     return {"prop": ID, "env": env, "installed": installed, "ops": ops}
@@ -167,9 +171,9 @@ def valid(sc):
                 if op["kind"] not in ("find_answer", "solve"):
                     return False
             elif k == "graph":
-                if op["fn"] not in GRAPH_FNS or (op["fn"] == "division_connected" and op["flag"] is not None):
+                if op["fn"] not in GRAPH_FNS or (op["fn"].startswith("division_connected") and op["flag"] is not None):
                     return False
-            elif k not in ("restart", "probe"):
+            elif k not in ("restart", "probe", "new_solver"):
                 return False
         return True
     except (KeyError, TypeError):
@@ -342,6 +346,14 @@ def _call_graph(cspuz, fn, flag, solver=None):
         G.active_edges_single_cycle_crossable(s, cspuz.BoolGridFrame(s, 1, 1), **kw)
     elif fn == "avc_grid":
         G.active_vertices_connected(s, s.bool_array((2, 2)), **kw)
+    elif fn == "avc_grid_acyclic":
+        G.active_vertices_connected(s, s.bool_array((2, 2)), acyclic=True, **kw)
+    elif fn == "single_cycle_grid":
+        G.active_edges_single_cycle(s, cspuz.BoolGridFrame(s, 1, 1), **kw)
+    elif fn == "single_path_grid":
+        G.active_edges_single_path(s, cspuz.BoolGridFrame(s, 1, 1), **kw)
+    elif fn == "division_connected_grid":
+        G.division_connected(s, s.int_array((2, 2), 0, 1), 2)
     elif fn == "with_borders_grid":
         from cspuz.grid_frame import BoolInnerGridFrame
 
@@ -362,6 +374,7 @@ def run(sc) -> RunResult:
     res = RunResult()
     core.fresh_z3_context()
     _LAST_SOLVER.clear()
+    _EARLY.clear()
     res.log("start", ID, sc.get("seed"))
     env = dict(sc["env"])
     installed = set(sc["installed"])
@@ -470,6 +483,15 @@ def run(sc) -> RunResult:
                     else:
                         _compare_cfg(res, n_op, f"Config(infer_from_env={op['infer']})", c, want, env, installed)
                     continue
+                if k == "new_solver":
+                    # Solver objects made now and used by later calls / graph constraints: whatever is
+                    # configured between construction and use must still count
+                    _EARLY["cspuz"] = cspuz
+                    _EARLY["call"] = _small_program(cspuz)
+                    _LAST_SOLVER["s"] = cspuz.Solver()
+                    _LAST_SOLVER["cspuz"] = cspuz
+                    res.hit("solver_constructed_ahead_of_use")
+                    continue
                 if k == "assign":
                     try:
                         setattr(cspuz.config, op["field"], op["val"])
@@ -519,12 +541,11 @@ def _do_call(res, world, cspuz, n_op, op, cfg, installed, z3_cached):
     kind = op["kind"]
     ctx = peers.SimContext(res)
     Sim = peers.make_sim_backend(ctx, E)
-    s = cspuz.Solver()
-    x = s.bool_var()
-    y = s.bool_var()
-    s.ensure(x | y)
-    s.ensure(~y)
-    s.add_answer_key(x, y)
+    if op.get("early_solver") and _EARLY.get("cspuz") is cspuz and _EARLY.get("call") is not None:
+        s = _EARLY["call"]
+        res.hit("call:solver_constructed_before_config_changes")
+    else:
+        s = _small_program(cspuz)
     rec = world.recorder
     del rec[:]
     n_recv = len(world.peer.received)
@@ -595,13 +616,24 @@ def _do_call(res, world, cspuz, n_op, op, cfg, installed, z3_cached):
 
 
 _LAST_SOLVER = {}
+_EARLY = {}
+
+
+def _small_program(cspuz):
+    s = cspuz.Solver()
+    x = s.bool_var()
+    y = s.bool_var()
+    s.ensure(x | y)
+    s.ensure(~y)
+    s.add_answer_key(x, y)
+    return s
 
 
 def _do_graph(res, cspuz, n_op, op, cfg):
     fn, flag = op["fn"], op["flag"]
     field = "use_graph_division_primitive" if fn in ("with_borders", "with_borders_grid") else "use_graph_primitive"
     use = flag if flag is not None else cfg[field]
-    expect_native = bool(use) and fn != "avc_acyclic"
+    expect_native = bool(use) and fn not in ("avc_acyclic", "avc_grid_acyclic")
     tag = f"op#{n_op} {fn}(use_graph_primitive={flag!r}) with config.{field}={cfg[field]!r}"
     res.hit(f"graph:{fn}:" + ("explicit" if flag is not None else "default"))
     reuse = _LAST_SOLVER.get("s") if op.get("same_solver") else None
@@ -615,7 +647,7 @@ def _do_graph(res, cspuz, n_op, op, cfg):
         _LAST_SOLVER["s"] = s
         _LAST_SOLVER["cspuz"] = cspuz
     except RuntimeError as e:
-        if fn == "single_path" and not use:
+        if fn in ("single_path", "single_path_grid") and not use:
             res.hit("graph:single_path_todo_runtimeerror")
             res.log("op", n_op, "graph", fn, flag, "RuntimeError")
             return
@@ -627,7 +659,7 @@ def _do_graph(res, cspuz, n_op, op, cfg):
     native = _has_native(cspuz, s.constraints[n_before:])
     res.log("op", n_op, "graph", fn, flag, cfg[field], native)
     res.hit("graph:native" if native else "graph:encoded")
-    if fn == "avc_acyclic" and native:
+    if fn in ("avc_acyclic", "avc_grid_acyclic") and native:
         res.violate("C20/native-used-for-acyclic", f"{tag}: acyclic connectivity was emitted as a native graph operator")
     elif native != expect_native:
         res.violate(
